@@ -367,7 +367,7 @@ func (g *chaotic) arg(t *rapid.T, sc scope, d int, name string, pos int) *ast.No
 			h = 'r'
 		}
 		if name == "replace" && pos == 2 && g.pick(t, "replStr", 2) == 0 {
-			return ast.StrN(rapid.SampledFrom([]string{"$0", "<$1>", "$$", "x", "$12", "$"}).Draw(t, "repl"))
+			return ast.StrN(rapid.SampledFrom([]string{"$0", "<$1>", "$$", "x", "$12", "$", "$99999999999999999999", "$18446744073709551617", "$1$2$3$4$5$6$7$8$9$10$11"}).Draw(t, "repl"))
 		}
 		return g.hinted(t, sc, d, h)
 	case boundedNumPos[name][pos]:
